@@ -291,17 +291,13 @@ double getSIScaling(const string &originUnit, const string &destinationUnit) {
     if ((org_prefix == dest_prefix) && (org_power == dest_power)) {
         return scaling;
     }
-    if (dest_prefix.empty() && !org_prefix.empty()) {
-        scaling = PREFIX_FACTORS.at(org_prefix);
-    } else if (org_prefix.empty() && !dest_prefix.empty()) {
-        scaling = 1.0 / PREFIX_FACTORS.at(dest_prefix);
-    } else if (!org_prefix.empty() && !dest_prefix.empty()) {
-        scaling = PREFIX_FACTORS.at(org_prefix) / PREFIX_FACTORS.at(dest_prefix);
-    }
-    if (!org_power.empty()) {
-        int power = std::stoi(org_power);
-        scaling = pow(scaling, power);
-    }
+    // work on the decimal exponents: the quotient of two prefix factors (1e-3 / 1e-6) is not the power of ten it
+    // stands for (1000.0000000000001), which moves positions that lie exactly on a sample or tick
+    auto exponent = [](const string &prefix) -> int {
+        return prefix.empty() ? 0 : static_cast<int>(std::floor(std::log10(PREFIX_FACTORS.at(prefix)) + 0.5));
+    };
+    int power = org_power.empty() ? 1 : std::stoi(org_power);
+    scaling = pow(10.0, static_cast<double>((exponent(org_prefix) - exponent(dest_prefix)) * power));
     return scaling;
 }
 
